@@ -15,11 +15,33 @@ VERIF = os.path.dirname(os.path.dirname(os.path.abspath(__file__)))
 KNOWN = os.path.join(VERIF, "known_findings.json")
 
 
+def construct_text(node) -> str:
+    """normalised text of a construct; compound statements are named by their header only so that edits
+    to their bodies do not change finding keys"""
+    if isinstance(node, str):
+        return " ".join(node.split())
+    if isinstance(node, (ast.For, ast.AsyncFor)):
+        return f"for {norm(node.target)} in {norm(node.iter)}"
+    if isinstance(node, ast.While):
+        return f"while {norm(node.test)}"
+    if isinstance(node, ast.If):
+        return f"if {norm(node.test)}"
+    if isinstance(node, (ast.With, ast.AsyncWith)):
+        return "with " + ", ".join(norm(i) for i in node.items)
+    if isinstance(node, (ast.FunctionDef, ast.AsyncFunctionDef)):
+        return f"def {node.name}"
+    if isinstance(node, ast.ClassDef):
+        return f"class {node.name}"
+    if isinstance(node, ast.Try):
+        return "try"
+    return norm(node)
+
+
 class Finding:
     def __init__(self, rule, qual, construct, loc, message, witness=None):
         self.rule = rule
         self.qual = qual
-        self.construct = norm(construct) if not isinstance(construct, str) else " ".join(construct.split())
+        self.construct = construct_text(construct)
         self.loc = loc
         self.message = message
         self.witness = witness
@@ -46,7 +68,7 @@ class RuleRun:
 
     def instance(self, func: Optional[Func], node, what=None):
         loc = func.loc(node) if func is not None and node is not None else (func.loc() if func else "?")
-        d = {"loc": loc, "function": func.qual if func else None, "construct": what or (norm(node)[:160] if node is not None else None)}
+        d = {"loc": loc, "function": func.qual if func else None, "construct": what or (construct_text(node)[:160] if node is not None else None)}
         self.instances.append(d)
         return d
 
